@@ -10,23 +10,40 @@
 EXTENDS JsonImport, TLC, Json, IOUtils, SequencesExt, FiniteSetsExt
 CONSTANTS MaxNodes, MaxNodesOpt, MaxDepth, Shards
 
-Keys == {"a", "b"}
-Scalars == {<<"num", 1>>, <<"str", "x">>, <<"bool", "true">>, Null}
+\* The documents are built as SEQUENCES without repetition (every document arises in exactly one
+\* way), level by level, so that TLC never has to sort or compare large sets of trees:
+\*   T[n]     the values of depth <= d with exactly n nodes (a scalar has depth 0)
+\*   S[m + 1] the sequences of such values with m nodes in total
+ScalarSeq == <<<<"num", 1>>, <<"str", "x">>, <<"bool", "true">>, Null>>
+Prod(A, B, F(_, _)) ==
+  [i \in 1..(Len(A) * Len(B)) |-> F(A[((i - 1) \div Len(B)) + 1], B[((i - 1) % Len(B)) + 1])]
+Map(A, F(_)) == [i \in 1..Len(A) |-> F(A[i])]
+RECURSIVE Cat(_)
+Cat(ss) == IF Len(ss) = 0 THEN <<>> ELSE Head(ss) \o Cat(Tail(ss))
 
-\* TreesN(d, n): the values with exactly n nodes and depth <= d (a scalar has depth 0)
-\* SeqsN(d, m):  the sequences of such values with m nodes in total
-RECURSIVE TreesN(_, _), SeqsN(_, _)
-TreesN(d, n) ==
-  (IF n = 1 THEN Scalars ELSE {}) \cup
-  (IF d = 0 THEN {}
-   ELSE {<<"arr", s>> : s \in SeqsN(d - 1, n - 1)} \cup
-        (IF n = 1 THEN {<<"obj", <<>>>>} ELSE {}) \cup
-        {<<"obj", <<<<k, v>>>>>> : k \in Keys, v \in TreesN(d - 1, n - 1)} \cup
-        UNION {{<<"obj", <<<<"a", va>>, <<"b", vb>>>>>> : va \in TreesN(d - 1, i), vb \in TreesN(d - 1, n - 1 - i)} :
-               i \in 1..(n - 2)})
-SeqsN(d, m) ==
-  IF m = 0 THEN {<<>>}
-  ELSE UNION {{<<v>> \o s : v \in TreesN(d, i), s \in SeqsN(d, m - i)} : i \in 1..m}
+RECURSIVE SeqTable(_, _, _)
+SeqTable(T, acc, m) ==
+  IF m >= MaxNodes THEN acc
+  ELSE SeqTable(T, Append(acc, Cat([i \in 1..m |-> Prod(T[i], acc[m - i + 1], LAMBDA v, s : <<v>> \o s)])), m + 1)
+
+Level0 == [n \in 1..MaxNodes |-> IF n = 1 THEN ScalarSeq ELSE <<>>] \o <<>>
+RECURSIVE LevelFrom(_, _, _)
+LevelFrom(T, S, n) ==      \* T, S: tables of the level below; builds the entries n..MaxNodes
+  IF n > MaxNodes THEN <<>>
+  ELSE << (IF n = 1 THEN ScalarSeq \o << <<"obj", <<>>>> >> ELSE <<>>)
+          \o Map(S[n], LAMBDA s : <<"arr", s>>)
+          \o (IF n = 1 THEN <<>>
+              ELSE Map(T[n - 1], LAMBDA v : <<"obj", << <<"a", v>> >> >>) \o
+                   Map(T[n - 1], LAMBDA v : <<"obj", << <<"b", v>> >> >>) \o
+                   Cat([i \in 1..(n - 2) |->
+                          Prod(T[i], T[n - 1 - i], LAMBDA va, vb : <<"obj", << <<"a", va>>, <<"b", vb>> >> >>)])) >>
+       \o LevelFrom(T, S, n + 1)
+RECURSIVE Level(_)
+Level(d) == IF d = 0 THEN Level0
+            ELSE LET T == Level(d - 1) IN LevelFrom(T, SeqTable(T, << << <<>> >> >>, 1), 1)
+Trees == Level(MaxDepth)
+Keys == {"a", "b"}
+Scalars == SeqRange(ScalarSeq)
 
 Opt(inc, exc) == [inc |-> inc, exc |-> exc]
 Opts == << Opt(<<>>, <<>>),
@@ -40,7 +57,7 @@ Opts == << Opt(<<>>, <<>>),
 
 In(tr, o) == [name |-> "T", t |-> tr, inc |-> o.inc, exc |-> o.exc]
 RECURSIVE Family(_)
-Family(n) == IF n = 0 THEN <<>> ELSE Family(n - 1) \o SetToSeq(TreesN(MaxDepth, n))
+Family(n) == IF n = 0 THEN <<>> ELSE Family(n - 1) \o Trees[n]
 Plain == Family(MaxNodes)
 Small == Family(MaxNodesOpt)
 RECURSIVE WithOpts(_)
